@@ -266,6 +266,7 @@ Proof.
   unfold assert.
   case_bool_decide; cbn [bind ret raise]; [|by intros [= <- <-]].
   case_bool_decide as Hfree; cbn [bind ret raise modify]; [|by intros [= <- <-]].
+  destruct (fits _ _); cbn [ensure bind ret raise modify]; [|by intros [= <- <-]].
   set (s2 := s1 <| pred ::= _ |> <| succ := _ |> <| refc ::= _ |> <| min_free := _ |>).
   change s2 with (add_node s1 (min_free s1) (Triple i v' w')). clear s2.
   set (s2 := add_node s1 (min_free s1) (Triple i v' w')).
